@@ -39,7 +39,7 @@ def judge(b, c_out, lazy_out, eager_out):
     sw = lazy_out.split()
     if sw[0] == 'OK':
         if not c['ok']:
-            if c.get('code') == 'MEMERROR' and has_huge(b): return None
+            if c.get('code') == 'MEMERROR' and has_huge(b) and int(c['pos']) <= int(sw[2]): return None
             return 'well-formed item rejected (%s at %s)' % (c.get('code'), c.get('pos'))
         if c['tree'] != sw[1]: return 'decoded tree differs from the tree the bytes denote'
         if c['read'] != sw[2]: return 'bytes read %s, encoded length of the first item is %s' % (c['read'], sw[2])
@@ -60,7 +60,9 @@ def judge(b, c_out, lazy_out, eager_out):
         rw = ref.split()
         if rw[0] == 'ERR' and c['code'] == rw[1] and c['pos'] == rw[2]:
             return None
-    if c['code'] == 'MEMERROR' and has_huge(b): return None
+    # an allocation the size-capped allocator refuses is MEMERROR just past the head that declares it; this is only
+    # acceptable when the reference decoder got at least that far (the head and, for strings, its payload are complete)
+    if c['code'] == 'MEMERROR' and has_huge(b) and sw[0] == 'ERR' and int(sw[2]) >= int(c['pos']): return None
     return 'reported %s at %s; the first violation is %s at %s' % (c['code'], c['pos'], sw[1], sw[2])
 
 
@@ -105,4 +107,14 @@ def corpus(tier, rng, rounds=None):
         first = rng.choice(starts) if rng.chance(3, 4) else rng.below(256)
         rest = [rng.choice([0xff, 0x5f, 0x7f, 0x9f, 0xbf, 0x41, 0x61, 0x80, 0x81, 0xa1, 0xc0, 0x00, 0x01, 0xf6]) if rng.chance(1, 2) else rng.below(256) for _ in range(n - 1)]
         rnd.append(bytes([first] + rest))
-    return bufs, [e[0] for e in uniq], nb, rnd
+    # declared lengths / counts up to 2^64-1 (payload absent or short), deep nests at the default limit, large definite containers
+    special = []
+    for mt in (2, 3, 4, 5):
+        for v in (2 ** 64 - 1, 2 ** 64 - 2, 2 ** 64 - 8, 2 ** 64 - 9, 2 ** 64 - 10, 2 ** 63, 2 ** 61, 2 ** 60, 2 ** 59, 2 ** 32, 2 ** 32 - 1, 2 ** 24, 2 ** 24 + 1):
+            h = gen.head(mt, v, 27 if v >= 2 ** 32 else 26)
+            special += [h, h + b'\x00', h + b'\x01\x02\x03', b'\x82' + h + b'\x00', b'\x5f' + h if mt == 2 else b'\x9f' + h + b'\xff']
+    for d in (2047, 2048, 2049):
+        special += [b'\x81' * d + b'\x00', b'\xc1' * d + b'\x00', b'\x9f' * d + b'\x01' + b'\xff' * d, (b'\xa1\x00') * d + b'\x00', b'\x81' * d + b'\x80']
+    special += [gen.head(4, 65537) + b'\x01' * 65537, gen.head(4, 65536) + b'\x01' * 65536, gen.head(5, 32769) + b'\x01\x02' * 32769,
+                gen.head(4, 65537) + b'\x01' * 65536]
+    return bufs + special, [e[0] for e in uniq], nb, rnd
